@@ -221,6 +221,7 @@ type workerOut struct {
 	results []*RunResult
 	crashed bool
 	crashAt uint64 // seed that was running when the worker died
+	crashPlan *Plan
 	stderr  string
 	nextIdx int // index into job.Seeds from which to continue (after crash/restart)
 	done    bool
@@ -265,6 +266,7 @@ func runWorker(b *built, job Job, gomaxprocs int, timeout time.Duration) workerO
 	wo := workerOut{hang: hang}
 	f, err := os.Open(of)
 	var started *uint64
+	var startedPlan *Plan
 	if err == nil {
 		sc := bufio.NewScanner(f)
 		sc.Buffer(make([]byte, 1<<20), 1<<28)
@@ -278,6 +280,13 @@ func runWorker(b *built, job Job, gomaxprocs int, timeout time.Duration) workerO
 				var s uint64
 				json.Unmarshal(v, &s)
 				started = &s
+				startedPlan = nil
+				if pv, ok := probe["plan"]; ok {
+					var pl Plan
+					if json.Unmarshal(pv, &pl) == nil {
+						startedPlan = &pl
+					}
+				}
 				continue
 			}
 			if _, ok := probe["done"]; ok {
@@ -307,6 +316,7 @@ func runWorker(b *built, job Job, gomaxprocs int, timeout time.Duration) workerO
 		if started != nil {
 			wo.crashed = true
 			wo.crashAt = *started
+			wo.crashPlan = startedPlan
 			wo.stderr = stderr.String()
 			wo.nextIdx = len(wo.results) + 1
 		} else if werr != nil {
@@ -316,6 +326,7 @@ func runWorker(b *built, job Job, gomaxprocs int, timeout time.Duration) workerO
 	}
 	if hang && started != nil {
 		wo.crashAt = *started
+		wo.crashPlan = startedPlan
 		wo.stderr = "worker killed after timeout\n" + tail(stderr.String(), 4000)
 		wo.nextIdx = len(wo.results) + 1
 	}
@@ -512,7 +523,7 @@ func cmdRun(args []string) int {
 							a.harness = append(a.harness, fmt.Sprintf("worker hang at seed %d: %s", seed, tail(wo.stderr, 2000)))
 							a.mu.Unlock()
 						} else {
-							a.addCrash(*prop, seed, wo.stderr)
+							a.addCrash(*prop, seed, wo.stderr, wo.crashPlan)
 						}
 					}
 					if wo.done {
@@ -577,7 +588,7 @@ func cmdRun(args []string) int {
 		origLen := 0
 		if plan != nil {
 			origLen = len(plan.Items)
-			if !*noShrink && v.Invariant != "crash" {
+			if !*noShrink {
 				plan = shrink(b, plan, v.Signature)
 			}
 		}
@@ -723,7 +734,7 @@ func (a *agg) add(rs []*RunResult) {
 }
 
 var reGoroutine = regexp.MustCompile(`(?m)^goroutine \d+ \[running`)
-var reHex = regexp.MustCompile(`0x[0-9a-f]+|\b[0-9]{3,}\b`)
+var reHex = regexp.MustCompile(`0x[0-9a-f]+|[0-9]+`)
 
 func panicSignature(prop, text string) string {
 	msg := ""
@@ -743,17 +754,18 @@ func panicSignature(prop, text string) string {
 	for _, l := range lines {
 		if strings.HasPrefix(l, "github.com/libp2p/go-libp2p-pubsub") && !strings.Contains(l, "verif") {
 			frame = l
-			if i := strings.Index(frame, "("); i > 0 {
+			if i := strings.LastIndex(frame, "("); i > 0 {
 				frame = frame[:i]
 			}
 			frame = strings.TrimPrefix(frame, "github.com/libp2p/go-libp2p-pubsub")
+			frame = strings.Trim(frame, "./")
 			break
 		}
 	}
 	return fmt.Sprintf("%s/panic/%s/%s", prop, strings.TrimSpace(frame), trunc(strings.TrimSpace(msg), 120))
 }
 
-func (a *agg) addCrash(prop string, seed uint64, stderr string) {
+func (a *agg) addCrash(prop string, seed uint64, stderr string, plan *Plan) {
 	a.mu.Lock()
 	defer a.mu.Unlock()
 	text := stderr
@@ -773,7 +785,10 @@ func (a *agg) addCrash(prop string, seed uint64, stderr string) {
 		}
 	}
 	sig := panicSignature(prop, text)
-	r := &RunResult{Seed: seed, Prop: prop, Panic: trunc(text, 4000)}
+	r := &RunResult{Seed: seed, Prop: prop, Panic: trunc(text, 4000), Plan: plan}
+	if plan != nil {
+		r.World = plan.World
+	}
 	r.Violations = []Violation{{Property: prop, Invariant: "crash", Signature: sig, Detail: trunc(text, 3000)}}
 	a.results++
 	a.bySig[sig]++
@@ -972,7 +987,7 @@ func cmdReplay(args []string) int {
 		a := &agg{probes: map[string]int{}, faults: map[string]int{}, classes: map[string]bool{}, digests: map[string]bool{}, worlds: map[string]int{}, bySig: map[string]int{}}
 		a.add(wo.results)
 		if wo.crashed {
-			a.addCrash(rep.Check, rep.Seed, wo.stderr)
+			a.addCrash(rep.Check, rep.Seed, wo.stderr, nil)
 		}
 		for _, r := range a.viol {
 			if hasSig(r, rep.Signature) {
